@@ -438,7 +438,9 @@ def call_specfn(eng, fn, args, st):
         argk, retk = fn.sig
         f = eng.uf('spec_' + fn.name, *([sort_of(k) for k in argk] + [sort_of(retk)]))
         key = 'axioms:' + fn.name
-        if key not in st.ghost:
+        revealed = eng.frame is None or fn.name in (eng.frame.contract.ghost.get('reveal') or ())
+        # opaque by default: the defining equation is available only to contracts that `reveal` the function
+        if key not in st.ghost and revealed:
             st.ghost[key] = True
             bound = [z3.Const('%s_%s' % (fn.name, n), sort_of(k)) for n, k in zip(names, argk)]
             ss = spec_state(st, {n: Val(k, b) for n, k, b in zip(names, argk, bound)}, None, {})
